@@ -1624,6 +1624,10 @@ class Data(BaseCartesianData):
                 comp_new = data.get_component(cname)
                 comp_old._data = comp_new._data
 
+        # cached masks depend on the values that were just replaced: drop them
+        # before the steps below (which broadcast messages) tell anybody
+        clear_mask_caches()
+
         # Add components that didn't exist in original one. As above, we try
         # and preserve the order of components as much as possible.
         for cid in data.components:
